@@ -411,7 +411,7 @@ inductive CRes
   | fin
   | err
   | panic
-deriving Repr, Inhabited
+deriving DecidableEq, Repr, Inhabited
 
 /-- overlap detection loop of `compactChunkIterator.Next` -/
 def overlapLoop : Nat → Array CIt → List Chunk → Int → Chunk → Array CIt × List Chunk
